@@ -105,4 +105,138 @@ theorem sem_pure_stmt (m : Nat) (k : Ctx) (c : Cmd) (hc : pipeRCmd c = true) (e 
         · have h2' : e.errexit = false := by simpa using h2
           simp [sem, swrap, isChecked, pureEff, h0', h1', h2', hte, Prog.isNil]
 
+theorem foldStmts_single (f : Stmt → St → Option St) (x : Stmt) (s : St) :
+    foldStmts f (.cons x .nil) s = f x s := by
+  rw [foldStmts]
+  cases f x s with
+  | none => rfl
+  | some s1 => rfl
+
+theorem run_pipe (n : Nat) (x y : Stmt) (s : St) (hs : stop s = false) :
+    run (n+1) (.cmd (.pipe x y)) s =
+      match run n (.stmt x) (subshellOf s []) with
+      | none => none
+      | some r2 =>
+        match run n (.stmt y) s with
+        | none => none
+        | some s1 =>
+          if s1.pipefail && r2.exit.code != 0 && s1.exit.ok then
+            some { s1 with exit := { r2.exit with exiting := false } }
+          else some s1 := by
+  rw [run]; simp only [hs, Bool.false_eq_true, ↓reduceIte]; rfl
+
+theorem sem_pipe (n : Nat) (k : Ctx) (x y : Stmt) (e : Env) :
+    sem (n+1) k (.cmd (.pipe x y)) e =
+      match subRun (fun st => sem n { k with depth := 0 } (.stmt st))
+          (fun a e' => sem n { k with depth := 0 } (.trap a) e') (.cons x .nil) (subEnv e []) with
+      | none => none
+      | some (_, e1) =>
+        match subRun (fun st => sem n { k with depth := 0 } (.stmt st))
+            (fun a e' => sem n { k with depth := 0 } (.trap a) e') (.cons y .nil) (subEnv e e.out) with
+        | none => none
+        | some (_, e2) =>
+          some (.norm, { e with status := if e.pipefail && e2.status = 0 then e1.status else e2.status,
+                                out := e2.out }) := by
+  rw [sem]; rfl
+
+theorem sim_pipe {n : Nat} (hS : SimS n) {K : SCtx} {k : Ctx} {sub : Bool} {s : St} (x y : Stmt)
+    (hst : Stat K k sub) (hs : supCmd K (.pipe x y) = true) (hd : Dyn K k sub s) (hl : LastOk s)
+    (hp : NoPending s) (hx : s.exit = {}) :
+    Rel (PostC K k sub (.pipe x y) s) (run (n+1) (.cmd (.pipe x y)) s)
+      (sem (n+1) k (.cmd (.pipe x y)) (absEnv s)) := by
+  simp only [supCmd, Bool.and_eq_true, Bool.not_eq_eq_eq_not, Bool.not_true] at hs
+  obtain ⟨⟨hne, hsx⟩, hsy⟩ := hs
+  have hne' := subNe_of (K := K) hne
+  obtain ⟨nx, cx⟩ := x
+  obtain ⟨ny, cy⟩ := y
+  cases nx with
+  | true => simp [supPipeL] at hsx
+  | false =>
+  cases ny with
+  | true => simp [supPipeR] at hsy
+  | false =>
+  have hcy : pipeRCmd cy = true := by simpa [supPipeR] using hsy
+  have hsupx : supProg (subK K.e) false (.cons (.mk false cx) .nil) = true := by
+    simp only [supPipeL, subCtx_eq] at hsx
+    simp [supProg, supStmt, hsx]
+  have h0 := sim_subrun hS (.cons (.mk false cx) .nil) [] hst hne' rfl hsupx hd hl hx
+  rw [foldStmts_single] at h0
+  rw [run_pipe n _ _ s (stop_false_of_exit hx), sem_pipe]
+  cases hr : run n (.stmt (.mk false cx)) (subshellOf s []) with
+  | none => rw [hr] at h0; rw [SubRel_none h0]; trivial
+  | some r2 =>
+    rw [hr] at h0
+    obtain ⟨e1, he, h1, _, h3⟩ := SubRel_some h0
+    rw [he]
+    have hn2 : 2 ≤ n := run_stmt_ge2 hr (by simp [stop, subshellOf, hx])
+    obtain ⟨m, rfl⟩ : ∃ m, n = m + 2 := ⟨n - 2, by omega⟩
+    -- the last stage
+    have hy := run_pure_stmt m cy hcy s (noFlags_of_exit hx) hd.cerr
+    obtain ⟨fl2, hys⟩ : ∃ fl2, sem (m+2) { k with depth := 0 } (.stmt (.mk false cy))
+        (subEnv (absEnv s) (absEnv s).out) = some (fl2,
+          { subEnv (absEnv s) (absEnv s).out with
+            status := (pureEff s.vars s.lastExit.code cy).1,
+            out := s.out ++ (pureEff s.vars s.lastExit.code cy).2 }) :=
+      ⟨_, sem_pure_stmt m { k with depth := 0 } cy hcy (subEnv (absEnv s) (absEnv s).out) rfl⟩
+    have hsub2 : subRun (fun st => sem (m+2) { k with depth := 0 } (.stmt st))
+        (fun a e' => sem (m+2) { k with depth := 0 } (.trap a) e') (.cons (.mk false cy) .nil)
+        (subEnv (absEnv s) (absEnv s).out) =
+        some (.norm, { subEnv (absEnv s) (absEnv s).out with
+          status := (pureEff s.vars s.lastExit.code cy).1,
+          out := s.out ++ (pureEff s.vars s.lastExit.code cy).2 }) := by
+      unfold subRun
+      rw [seqList, hys]
+      cases fl2 <;> simp [seqList, sem_trap_nil, subEnv]
+    rw [hy, hsub2]
+    simp only
+    -- combine
+    have hpf : (afterPure cy s).pipefail = s.pipefail := rfl
+    have hcode : (afterPure cy s).exit.code = (pureEff s.vars s.lastExit.code cy).1 := rfl
+    have hdyn : Dyn K k sub (afterPure cy s) := hd.congr rfl rfl rfl rfl rfl rfl rfl rfl
+    have hpend : NoPending (afterPure cy s) := hp
+    generalize hcd : (pureEff s.vars s.lastExit.code cy).1 = code at *
+    generalize hod : (pureEff s.vars s.lastExit.code cy).2 = o at *
+    by_cases hc1 : (s.pipefail && r2.exit.code != 0 && (afterPure cy s).exit.ok) = true
+    · -- pipefail takes the status of the left side
+      rw [hpf, if_pos hc1]
+      simp only [Bool.and_eq_true, bne_iff_ne, ne_eq] at hc1
+      obtain ⟨⟨hpf1, hr2⟩, hok⟩ := hc1
+      have hc0 : code = 0 := by simpa [Exit.ok, hcode] using hok
+      left
+      simp only [Post]
+      refine ⟨?_, hd.congr rfl rfl rfl rfl rfl rfl rfl rfl, ⟨rfl, rfl, rfl⟩, ⟨h3, rfl⟩, hp,
+        fun h => h.elim, fun h => by simp [isChecked] at h⟩
+      simp [absEnv, absEnvC, afterPure, hcd, hod, hc0, hpf1, h1]
+    · rw [hpf, if_neg hc1]
+      have hstat : (if ((absEnv s).pipefail && decide (code = 0)) = true then e1.status else code) = code := by
+        split
+        · rename_i h
+          simp only [Bool.and_eq_true, decide_eq_true_eq] at h
+          have hpf1 : s.pipefail = true := h.1
+          have hc0 : code = 0 := h.2
+          have hok : (afterPure cy s).exit.ok = true := by simp [Exit.ok, hcode, hc0]
+          have : r2.exit.code = 0 := by
+            simp only [hpf1, hok, Bool.true_and, Bool.and_true, bne_iff_ne, ne_eq, Decidable.not_not] at hc1
+            exact hc1
+          rw [h1, this, hc0]
+        · rfl
+      by_cases hfire : (afterPure cy s).exit.exiting = true
+      · -- the last stage failed under errexit, in the runner itself
+        right
+        have hf : (decide (code ≠ 0) && !s.noErrExit && s.errexit) = true := by
+          have : (afterPure cy s).exit.exiting = (decide (code ≠ 0) && !s.noErrExit && s.errexit) := by
+            simp [afterPure, hcd]
+          rw [← this]; exact hfire
+        simp only [Bool.and_eq_true, decide_eq_true_eq, Bool.not_eq_eq_eq_not, Bool.not_true] at hf
+        refine ⟨rfl, rfl, ?_, hdyn, ⟨rfl, rfl, rfl⟩, hpend, rfl, hfire, hf.2, hf.1.2, ?_⟩
+        · simp only [hstat]
+          simp [absEnv, absEnvC, afterPure, hcd, hod]
+        · rw [hcode]; exact hf.1.1
+      · left
+        simp only [Post]
+        refine ⟨?_, hdyn, ⟨rfl, rfl, rfl⟩, ⟨rfl, by simpa using hfire⟩, hpend,
+          fun h => h.elim, fun h => by simp [isChecked] at h⟩
+        simp only [hstat]
+        simp [absEnv, absEnvC, afterPure, hcd, hod]
+
 end ShVerif.C26
